@@ -203,6 +203,20 @@ class FReq(Schema):
     d: int = Field(ge=0, default=7)
 
 
+class FFac(Schema):
+    __options__ = Options(invalid_values='exclude')
+    r: int = Field(ge=0)
+    o: int = Field(ge=0, required=False)
+    d: int = Field(ge=0, default_factory=lambda: 7)
+
+
+class FNoDef(Schema):
+    __options__ = Options(invalid_values='exclude', no_default=True)
+    r: int = Field(ge=0)
+    o: int = Field(ge=0, required=False)
+    d: int = Field(ge=0, default=7)
+
+
 class FOn(Schema):
     r: int = Field(ge=0, on_error='preserve')
     o: int = Field(ge=0, required=False, on_error='exclude')
@@ -280,12 +294,13 @@ def conv_ge0(v):
 
 
 @ob('fields', marks=['offender', 'clean', 'required-offender'], budget=(60, 200),
-    bounds='Schemas with Options(invalid_values=exclude) / per-field on_error (preserve, exclude) / r required only in mode w (class in mode w and in mode r): fields r (required), '
+    bounds='Schemas with Options(invalid_values=exclude) / per-field on_error (preserve, exclude) / r required only in mode w (class in mode w and in mode r) / d from a default_factory / Options(no_default=True): fields r (required), '
            'o (optional), d (default 7), all int ge 0; each value absent | solver int -3..3 | "x" | "5"',
     out='non-int fields')
 def fields(V):
-    which = V.pick('cls', ['options-exclude', 'field-on_error', 'required-in-mode', 'required-in-other-mode'])
-    cls = {'options-exclude': FReq, 'field-on_error': FOn, 'required-in-mode': FMode, 'required-in-other-mode': FModeR}[which]
+    which = V.pick('cls', ['options-exclude', 'field-on_error', 'required-in-mode', 'required-in-other-mode', 'default-factory', 'no_default'])
+    cls = {'options-exclude': FReq, 'field-on_error': FOn, 'required-in-mode': FMode, 'required-in-other-mode': FModeR,
+           'default-factory': FFac, 'no_default': FNoDef}[which]
     r_required = cls is not FModeR
     data = {}
     for n in ('r', 'o', 'd'):
@@ -312,12 +327,12 @@ def fields(V):
             if n == 'r' and r_required:
                 fail = True          # a required field is never silently excluded
                 V.cover('required-offender')
-            elif n == 'd':
+            elif n == 'd' and cls is not FNoDef:
                 want[n] = 7
         else:
             if n == 'r' and r_required:
                 fail = True
-            elif n == 'd':
+            elif n == 'd' and cls is not FNoDef:
                 want[n] = 7
     if fail:
         V.check(r[0] == 'err', 'fields:required-excluded-silently', d)
